@@ -79,3 +79,60 @@ theorem be16_flatMap_parse (l : List Nat) (hl : ∀ x ∈ l, x < 65536) (tail : 
     rw [e2, ih hxs]
 
 end RtcModel.Negotiate
+
+namespace RtcModel.Negotiate
+open RtcModel.Generated
+
+/-- number of used ids at or above `id` -/
+def usedFrom (used : List Nat) (id : Nat) : Nat := (used.filter (fun x => decide (id ≤ x))).length
+
+theorem usedFrom_le (used : List Nat) (id : Nat) : usedFrom used (id + 2) ≤ usedFrom used id := by
+  induction used with
+  | nil => simp [usedFrom]
+  | cons x xs ih =>
+    simp only [usedFrom, List.filter_cons] at *
+    by_cases h1 : id + 2 ≤ x
+    · have h2 : id ≤ x := by omega
+      simp [h1, h2]; exact ih
+    · by_cases h2 : id ≤ x
+      · simp [h1, h2]; omega
+      · simp [h1, h2]; exact ih
+
+theorem usedFrom_lt (used : List Nat) (id : Nat) (h : id ∈ used) : usedFrom used (id + 2) < usedFrom used id := by
+  induction used with
+  | nil => simp at h
+  | cons x xs ih =>
+    have hle := usedFrom_le xs id
+    simp only [usedFrom, List.filter_cons] at *
+    rcases List.mem_cons.mp h with h | h
+    · subst h
+      have : ¬ (id + 2 ≤ id) := by omega
+      simp [this]; omega
+    · have := ih h
+      by_cases h1 : id + 2 ≤ x
+      · have h2 : id ≤ x := by omega
+        simp [h1, h2]; exact this
+      · by_cases h2 : id ≤ x
+        · simp [h1, h2]; omega
+        · simp [h1, h2]; exact this
+
+/-- with enough fuel for the used ids at or above the start, the loop returns an id that is not in use -/
+theorem dcAllocFrom_free (used : List Nat) (fuel id : Nat) (h : usedFrom used id < fuel) :
+    dcAllocFrom used id fuel ∉ used := by
+  induction fuel generalizing id with
+  | zero => omega
+  | succ f ih =>
+    simp only [dcAllocFrom]
+    split
+    · rename_i hc
+      have hm : id ∈ used := by simpa using hc
+      have := usedFrom_lt used id hm
+      rw [dcIdStep_val]
+      exact ih (id + 2) (by omega)
+    · rename_i hc
+      simpa using hc
+
+theorem usedFrom_le_length (used : List Nat) (id : Nat) : usedFrom used id ≤ used.length := by
+  simp [usedFrom]; exact List.length_filter_le _ _
+
+end RtcModel.Negotiate
